@@ -392,6 +392,32 @@ func (p *Prog) eval(fr *Frame, v ssa.Value, depth int) Val {
 			return first
 		}
 		return p.opaque(fr, v)
+	case *ssa.Lookup:
+		// a map stored in a map: the value looked up is a reference to the inner map, which stays shared (and is
+		// mutated in place by whoever holds the outer map's lock); accesses through it are accesses to the outer
+		// field's contents
+		if _, inner := x.Type().Underlying().(*types.Map); inner && !x.CommaOk {
+			if _, isMap := x.X.Type().Underlying().(*types.Map); isMap {
+				if base := p.eval(fr, x.X, depth+1); base.K == KPath {
+					return base.with(Seg{Elem: true})
+				}
+			}
+		}
+		return p.opaque(fr, v)
+	case *ssa.Extract:
+		if ta, ok := x.Tuple.(*ssa.TypeAssert); ok && x.Index == 0 {
+			return p.eval(fr, ta.X, depth+1)
+		}
+		if lk, isL := x.Tuple.(*ssa.Lookup); isL && lk.CommaOk && x.Index == 0 {
+			if _, inner := x.Type().Underlying().(*types.Map); inner {
+				if _, isMap := lk.X.Type().Underlying().(*types.Map); isMap {
+					if base := p.eval(fr, lk.X, depth+1); base.K == KPath {
+						return base.with(Seg{Elem: true})
+					}
+				}
+			}
+		}
+		return p.opaque(fr, v)
 	case *ssa.ChangeType:
 		return p.eval(fr, x.X, depth+1)
 	case *ssa.Convert:
@@ -405,11 +431,6 @@ func (p *Prog) eval(fr *Frame, v ssa.Value, depth int) Val {
 	case *ssa.TypeAssert:
 		if !x.CommaOk {
 			return p.eval(fr, x.X, depth+1)
-		}
-		return p.opaque(fr, v)
-	case *ssa.Extract:
-		if ta, ok := x.Tuple.(*ssa.TypeAssert); ok && x.Index == 0 {
-			return p.eval(fr, ta.X, depth+1)
 		}
 		return p.opaque(fr, v)
 	case *ssa.Call:
